@@ -38,6 +38,29 @@ def _check_split(res, sig, want):
         counts = (m.nargs, m.nret, s.nargs)
     except Exception as e:
         counts = repr(e)
+    # the keyword defaults: only arguments, only returns
+    try:
+        i2 = I.DBusInterface('org.verif.K', I.Method('only_in', sig),
+                             I.Method('only_out', returns=sig),
+                             I.Method('neither'), I.Signal('bare'),
+                             noRegister=True)
+        late = I.Method('late_out', returns=sig)
+        i2.addMethod(late)
+        c2 = ((i2.methods['only_in'].nargs, i2.methods['only_in'].nret),
+              (i2.methods['only_out'].nargs, i2.methods['only_out'].nret),
+              (i2.methods['late_out'].nargs, i2.methods['late_out'].nret),
+              (i2.methods['neither'].nargs, i2.methods['neither'].nret),
+              i2.signals['bare'].nargs)
+    except Exception as e:
+        c2 = repr(e)
+    n_ = len(want)
+    if c2 != ((n_, 0), (0, n_), (0, n_), (0, 0), 0):
+        res.violation('%s/argcount-defaults/%s' % (PROP, sig),
+                      'Method(name, %r) / Method(name, returns=%r) / the '
+                      'same added later / Method(name) / Signal(name) count '
+                      '%r, the signature has %d complete types'
+                      % (sig, sig, c2, n_), rep, size=len(sig))
+        return
     if counts != (len(want),) * 3:
         res.violation('%s/argcount/%s' % (PROP, sig),
                       'Method/Signal declared with %r count %r arguments, '
